@@ -5,8 +5,10 @@ proof          lean/SoxrModel/Properties/C16.lean over the control skeleton lean
                 snap, overshoot bound, immediate change and "then stays" for every state (request_settles; the
                 "no unfinished slew" hypothesis went with the repair of F13), stage switch rescaling / time continuity,
                 the repaired shift equals the model's (F14), frame count on the clock, CR refusal, fade alignment:
-                occupancy0 aligned as a loop invariant, down-switch fades aligned (F35 repaired; the negation on the
-                pre-repair loop kept as a historical witness).
+                occupancy0 aligned as a loop invariant, down-switch fades and fades down to the up-sampling stage aligned
+                (F35 repaired; the negation on the pre-repair loop kept as a historical witness), and the negation for all
+                runs on the CURRENT code with a solved-for witness of an up-switch fade (F41, known); the frame count of the
+                whole engine (chain occupancies, chunking, hand-back, flush) at a constant ratio on every stage.
 correspondence  random ratio trajectories (max ratio 0.5…64, slews 0…4000, changes in mid-slew incl. immediate ones,
                 random blocks, flush) through the real engine (harness/vr/trace.c, asserts on) and through the compiled
                 model soxr_vr: every field of rate_t and every FIFO occupancy after every call, plus the decision of
@@ -224,7 +226,7 @@ def correspondence(ctx, exe, exe_rel, n_traj, nops, fails):
     ctx.count("f35_family_trajectories", len(fam))
     ctx.count("f35_family_up_and_down_switch_runs", sum(1 for r in results[len(seeds):] if r["info"]["nsw"] >= 3))
     calls = 0
-    f13_hits, f35_hits = [], []
+    f13_hits, f35_hits, f41_hits = [], [], []
     for r in results:
         calls += r["calls"]
         ctx.hist("traj_max_ratio", "<1" if r["mx"] < 1 else "<4" if r["mx"] < 4 else "<16" if r["mx"] < 16 else "<=64")
@@ -246,7 +248,7 @@ def correspondence(ctx, exe, exe_rel, n_traj, nops, fails):
             fails.append(dict(kind="correspondence", what=(r["crash"] or "") + (" | " if r["crash"] and r["diff"] else "") +
                               (r["diff"][1] if r["diff"] else ""), ops=r["ops"], seed=r["seed"]))
         if r["f35"]:
-            f35_hits.append("random trajectory (seed %d) %s" % (r["seed"], r["f35"]))
+            f41_hits.append("random trajectory (seed %d) %s (the model counts the misaligned chunk in that call)" % (r["seed"], r["f35"]))
         if r["crash"] and ASSERT_F35 in r["crash"]:
             f35_hits.append("random trajectory (seed %d): the asserts-on build aborts where the model counts no misaligned chunk: %s" % (
                 r["seed"], r["crash"][-160:]))
@@ -267,7 +269,7 @@ def correspondence(ctx, exe, exe_rel, n_traj, nops, fails):
     for r in results[:3]:
         ctx.sample(dict(stage="correspondence", max_ratio=r["mx"], ops=len(r["ops"]), calls=r["calls"],
                         stage_switches=r["info"]["nsw"], first_ops=r["ops"][:6]))
-    return f13_hits, f35_hits
+    return f13_hits, f35_hits, f41_hits
 
 
 # ====================================================================== numeric falsifier (real code only)
@@ -612,6 +614,8 @@ WITNESSES = {
             rep("proc 400 50", 120), 3.9, 1.0),
 }
 # Properties/C16.lean opsF35 (`proc il ol` takes min(ceil(ol * 8), il) frames: 800, 800, 2500)
+# Properties/C16.lean opsF41: an up-switch fade in which the floored current stream delivers a pair the fade-out stream has no input for
+WITNESS_F41 = ["create 4", "ratio 1.5 0", "proc 3000 1000", "proc 0 5000", "ratio 2.1785714286379516 0", "proc 8 600"]
 WITNESS_F35 = ["create 8", "ratio 0.25 0", "proc 3000 100", "ratio 6 0", "proc 1200 100", "ratio 1 800", "proc 2500 1400"]
 # F36 (found by C07, seed 3): 0.67 -> 8.77 in one frame, then one call of 3630 frames that takes three up-switches
 WITNESS_F36 = ["create 16", "ratio 0.6712862513901316 0", "ratio 8.772572708703153 1", "proc 1023 117", "proc 31850 10259", "proc 2048 481"]
@@ -649,42 +653,47 @@ def witness_stage(ctx, exe, fails, known):
     return hit
 
 
-def witness_f35_stage(ctx, exe_dbg, exe_rel, fails, known):
-    """The call sequence of the F35 witness (Properties/C16.lean opsF35) on the real code.  Since the repair the model says
-    that every chunk of it is aligned (witnessF35_aligned): the asserts-on build must run through and both builds must
-    equal the model on every field.  Where the model counts a misaligned chunk (a model of an unrepaired tree) the
-    asserts-on build must abort there on exactly that assertion.  Returns F35 reproductions (assertion failures)."""
-    ops = WITNESS_F35
-    mo, mres = V.model_groups(8.0, ops)
+def witness_f35_stage(ctx, exe_dbg, exe_rel, fails, known, ops=None, tag="F35", what=None):
+    """A call sequence of a fade-alignment witness on the real code (default: Properties/C16.lean opsF35, repaired: the model
+    says that every chunk of it is aligned, witnessF35_aligned; opsF41: the model counts one misaligned chunk in the last
+    call, fade_alignment_fails_up_switch).  Where the model counts none the asserts-on build must run through; where it
+    counts one the asserts-on build must abort in that call on exactly `odone == odone2` and in no earlier one; the NDEBUG
+    build must equal the model on every field in both cases.  Returns (reproductions where the model counts none,
+    reproductions where the model counts one)."""
+    ops = ops or WITNESS_F35
+    what = what or ("witness opsF35 (0.25 -> 6 at once -> slew to 1 over 800 frames, then one call of 1400 frames: up-switch, fade, "
+                    "down-switch in one vr_process)")
+    mo, mres = V.model_groups(float(ops[0].split()[1]), ops)
     info = V.scan_model(ops, mres)
     ctx.count("evaluations", 2)
     rc, lines, err = V.run_harness(exe_rel, ops)
     ro, rr, _ = V.split_real(lines)
     d = V.compare(ops, mo, mres, ro, rr)
     if rc or d:
-        fails.append(dict(kind="correspondence", what="F35 witness, NDEBUG build: %s %s" % (err[-200:], d[1] if d else ""), ops=ops))
+        fails.append(dict(kind="correspondence", what="%s witness, NDEBUG build: %s %s" % (tag, err[-200:], d[1] if d else ""), ops=ops))
     rc1, lines1, err1 = V.run_harness(exe_dbg, ops)
     ro1, rr1, _ = V.split_real(lines1)
     aborted = bool(rc1) and ASSERT_F35 in err1
     text = None
     if aborted:
-        text = ("witness opsF35 (0.25 -> 6 at once -> slew to 1 over 800 frames, then one call of 1400 frames: up-switch, fade, down-switch "
-                "in one vr_process), call %d: %s" % (len(rr1), [l for l in err1.splitlines() if "Assertion" in l][-1].split(": ", 1)[-1][-100:]))
+        text = ("%s, call %d: %s" % (what, len(rr1), [l for l in err1.splitlines() if "Assertion" in l][-1].split(": ", 1)[-1][-100:]))
     if info["mis"] is None:
         if aborted:
-            return [text + "; the model (which re-aligns occupancy0 at an up-switch) counts no misaligned chunk"]
+            return [text + "; the model counts no misaligned chunk"], []
         d1 = V.compare(ops, mo, mres, ro1, rr1)
         if rc1 or d1:
-            fails.append(dict(kind="correspondence", what="F35 witness, asserts-on build: %s %s" % (err1[-200:], d1[1] if d1 else ""), ops=ops))
+            fails.append(dict(kind="correspondence", what="%s witness, asserts-on build: %s %s" % (tag, err1[-200:], d1[1] if d1 else ""), ops=ops))
         else:
-            ctx.count("f35_witness_aligned_on_real_code")
-        return []
+            ctx.count("%s_witness_aligned_on_real_code" % tag.lower())
+        return [], []
     n_before = sum(len(g) for g in mo[:info["mis"]])
     if aborted and len(rr1) == n_before:
-        return [text]
-    fails.append(dict(kind="correspondence", what="F35 witness: the model counts a chunk with odone != odone2 in op %d but the asserts-on "
-                      "build %s" % (info["mis"], "ran through it" if not rc1 else "failed differently: " + err1[-300:]), ops=ops))
-    return []
+        last = V.State(mres[info["mis"]][-1])
+        return [], [text + "; the model counts the misaligned chunk in that call (nmis = %d); NDEBUG build: model = engine on every field, "
+                    "fadeout.at = %d" % (last.mis, last.fo[0])]
+    fails.append(dict(kind="correspondence", what="%s witness: the model counts a chunk with odone != odone2 in op %d but the asserts-on "
+                      "build %s" % (tag, info["mis"], "ran through it" if not rc1 else "failed differently: " + err1[-300:]), ops=ops))
+    return [], []
 
 
 def witness_f36_numeric(ctx, exe_rel, tmp, fails):
@@ -954,21 +963,27 @@ def run(ctx):
     exe_san = common.build_harness("vr_trace", ["vr/trace.c"], variant=SAN)
     known = known_ids()
     fails = []
-    f13_hits, f12_hits, f14_hits, f35_hits, f36_hits = [], [], [], [], []
+    f13_hits, f12_hits, f14_hits, f35_hits, f36_hits, f41_hits = [], [], [], [], [], []
     model_ok = os.path.exists(V.MODEL)
 
     if model_ok:
         corpus_stage(ctx, exe_dbg, fails)
         # ---- correspondence + integer oracles
         n_traj, nops = (140, 260) if ctx.quick else (2500, 420)
-        f13_corr, f35_corr = correspondence(ctx, exe_dbg, exe_rel, n_traj, nops, fails)
+        f13_corr, f35_corr, f41_corr = correspondence(ctx, exe_dbg, exe_rel, n_traj, nops, fails)
         ctx.count("f13_oracle_hits_in_random_trajectories", len(f13_corr))
         ctx.count("f35_assertion_aborts_in_random_trajectories", len(f35_corr))
         # ---- the Lean witnesses on the real code
         f13_hits = witness_stage(ctx, exe_rel, fails, known)
         if f13_corr and not f13_hits:
             f13_hits = ["random trajectory (seed %d, op %d): %s" % f13_corr[0]]
-        f35_hits = witness_f35_stage(ctx, exe_dbg, exe_rel, fails, known) + f35_corr
+        a35, b35 = witness_f35_stage(ctx, exe_dbg, exe_rel, fails, known)
+        a40, b40 = witness_f35_stage(ctx, exe_dbg, exe_rel, fails, known, WITNESS_F41, "F41",
+                                     "witness opsF41 (ratio 1.5 run dry, then (2^32+383479223)/2^31 at once: up-switch 0 -> 1, the floored current "
+                                     "stream delivers 4 pairs, the fade-out stream 3)")
+        f35_hits = a35 + a40 + f35_corr           # the assertion fails where the model counts no misaligned chunk
+        f41_hits = b40 + b35 + f41_corr           # ... exactly where the model counts one
+        ctx.count("f41_assertion_aborts_predicted_by_model_in_random_trajectories", len(f41_corr))
         api_stage(ctx, exe_rel, fails)
     with tempfile.TemporaryDirectory(prefix="vr-c16-") as tmp:
         numeric_constant(ctx, exe_rel, tmp, 22 if ctx.quick else 400, fails)
@@ -984,6 +999,8 @@ def run(ctx):
                             ("F12", f12_hits, "VR output depends on the request sizes when a stage switch is taken: "),
                             ("F14", f14_hits, "UBSan: left shift of a negative value at a stage switch (vr32.c lshift): "),
                             ("F35", f35_hits, "the two cross-faded streams get out of step (vr32.c assert(odone == odone2)): "),
+                            ("F41", f41_hits, "up-switch fade: the floored current stream delivers a pair the fade-out stream has no input for "
+                                              "(vr32.c assert(odone == odone2)), in exactly the call where the model counts it: "),
                             ("F36", f36_hits, "a stage restarted in mid-call is read beyond what it holds and left below its preload; UBSan in the "
                                               "next call (vr32.c do_input_stage shiftl(already_done, sign)): ")):
         if not hits:
@@ -993,7 +1010,7 @@ def run(ctx):
             ctx.known(fid, text + hits[0])
         elif fid != "F14":                 # a reverted F14 is already reported by san_stage with its failing input
             fails.append(dict(kind="finding:" + fid, what=text + hits[0] + "  (no active entry in known_findings.d/vr.json: recorded as "
-                              "fixed, or never listed)", ops=WITNESSES["witnessA"][0] if fid == "F13" else WITNESS_F35 if fid == "F35" else WITNESS_F36 if fid == "F36" else []))
+                              "fixed, or never listed)", ops=WITNESSES["witnessA"][0] if fid == "F13" else WITNESS_F35 if fid == "F35" else WITNESS_F36 if fid == "F36" else WITNESS_F41 if fid == "F41" else []))
 
     ctx.cov["rule"] = ("every state field of rate_t after every call equals the Lean model's (integers; doubles as bit patterns); on the "
                        "real state: step == (int64)(r*step_mult+.5) at once for slew_len 0 and once more than slew_len frames have "
